@@ -252,6 +252,23 @@ func (c *Ctx) Borrow(propID, tier string, idx int, limit time.Duration) (evals i
 	return b.rec.Evals, append([]Violation(nil), b.rec.Viol...), append([]string(nil), b.rec.Inc...), finished
 }
 
+// ExitNow ends the child at once, after recording the case's verdicts: for a server that is wedged
+// (a goroutine spinning or blocked for ever under a lock), where an orderly stop of lal would
+// itself block until the case watchdog fires. The driver replaces the child and goes on with the
+// next case (exit code 4, like RestartChild). Deferred clean-up does not run; scratch files are
+// removed by the driver.
+func (c *Ctx) ExitNow() {
+	c.mu.Lock()
+	b, _ := json.Marshal(c.rec)
+	if c.out != nil {
+		c.out.Write(append(b, '\n'))
+		c.out.Sync()
+		c.out.Close()
+	}
+	c.mu.Unlock()
+	os.Exit(4)
+}
+
 func (c *Ctx) Logf(format string, a ...interface{}) {
 	fmt.Fprintf(os.Stderr, "[case %d] "+format+"\n", append([]interface{}{c.Index}, a...)...)
 }
